@@ -132,6 +132,11 @@ pub fn run(t: &[String]) -> String {
                 v.as_bool().map(|x| if x { "1" } else { "0" }.to_string()).unwrap_or("-".into()),
                 hexs(v.to_string_repr().as_bytes()))
         }
+        // ord_frepr <16 hex bits> -> hex of f64::to_string()
+        "ord_frepr" => {
+            let b = u64::from_str_radix(&t[1], 16).unwrap();
+            hexs(f64::from_bits(b).to_string().as_bytes())
+        }
         "ord_merge" => merge(t, false),
         "ord_mergeset" => merge(t, true),
         _ => "UNKNOWN_PROBE".into(),
